@@ -145,6 +145,12 @@ func (p *pipe) Close() error {
 		p.closing = true
 		if p.added {
 			p.s.remPipe(p)
+		} else {
+			// Never attached (refused by the protocol, or closed
+			// during the Attaching hook): nothing else will release
+			// the pipe ID or drop the pipe from the socket's list.
+			p.s.pipes.Remove(p)
+			pipeIDs.Free(p.id)
 		}
 		p.lock.Unlock()
 
